@@ -181,6 +181,34 @@ Section Reader.
         end
     end.
 
+  (** XmlNode.Choose: a case is chosen when an element of one of its nodes is found, looking
+      through choices nested in the case (after "fix: XmlNode.Choose looks through choices nested in
+      a case"); it ranges over the map of cases, and with conforming data - at most one case
+      populated - the answer does not depend on the order: it is the reference store's Choose, so
+      nothing of the view is hidden from the editor.
+      [choose_own_only] = true is the pinned behaviour: only a case's OWN definitions were looked at,
+      so a node below a nested choice was read only if every enclosing case also had a node of its
+      own with data.  On the positional view: a flat kid is visible iff for every non-empty prefix
+      of its guard some kid whose guard is exactly that prefix is present ([hide]). *)
+  Variable choose_own_only : bool.
+  Fixpoint guard_eqb (a b : guard) : bool :=
+    match a, b with
+    | [], [] => true
+    | (c, k) :: a', (c', k') :: b' => Nat.eqb c c' && Nat.eqb k k' && guard_eqb a' b'
+    | _, _ => false
+    end.
+  Definition case_has_own (kids : list snode) (c : content) (p : guard) : bool :=
+    existsb (fun ko : snode * option dnode => guard_eqb (sguard (fst ko)) p && present (snd ko)) (combine kids c).
+  (** [pre] is the part of the guard already checked (reversed growth: [pre ++ [e]] is the next prefix) *)
+  Fixpoint guard_visible (kids : list snode) (c : content) (pre : guard) (rest : guard) : bool :=
+    match rest with
+    | [] => true
+    | e :: rest' => case_has_own kids c (pre ++ [e]) && guard_visible kids c (pre ++ [e]) rest'
+    end.
+  Definition hide (kids : list snode) (c : content) : content :=
+    map (fun ko : snode * option dnode => if guard_visible kids c [] (sguard (fst ko)) then snd ko else None)
+        (combine kids c).
+
   (** the view of schema node [s] among the child elements [sibs] of an element whose resolved
       namespace is [inh].  [any] = true only at the document element (ReadXMLDoc: "root node is
       assumed to be the correct element") and for the entries of a list selection (Next by row does
@@ -224,7 +252,7 @@ Section Reader.
                      end
                  end) kids
             with
-            | Ok c => Ok (Some (DCont c))
+            | Ok c => Ok (Some (DCont (if choose_own_only then hide kids c else c)))
             | Err e => Err e
             end
         end
